@@ -423,7 +423,17 @@ def class_change(ctx, P, iters):
         s = unparse(rules.inline_locals(fn, fn)).replace(" ", "").replace("\n", "")
         want = "random_choice(self.simulation.network.customer_class_names,[self.class_change[%s.previous_class][clss_name]forclss_nameinself.simulation.network.customer_class_names])" % tok
         ob.ok("%s.change_customer_class:draw" % view.name)
-        if want not in s or ("%s.previous_class=%s.customer_class" % (tok, tok)) not in s:
+        # structural: random_choice(NAMES, [self.class_change[TOK.previous_class][v] for v in NAMES]) with the same NAMES (the comprehension variable is free)
+        names_ = "self.simulation.network.customer_class_names"
+        draw_ok = False
+        for c_ in ast.walk(rules.inline_locals(fn, fn)):
+            if isinstance(c_, ast.Call) and call_name(c_) == "random_choice" and len(c_.args) == 2 and not c_.keywords and unparse(c_.args[0]) == names_ \
+                    and isinstance(c_.args[1], ast.ListComp) and len(c_.args[1].generators) == 1:
+                g_ = c_.args[1].generators[0]
+                if isinstance(g_.target, ast.Name) and unparse(g_.iter) == names_ and not g_.ifs \
+                        and unparse(c_.args[1].elt).replace(" ", "") == "self.class_change[%s.previous_class][%s]" % (tok, g_.target.id):
+                    draw_ok = True
+        if not draw_ok or ("%s.previous_class=%s.customer_class" % (tok, tok)) not in s:
             ctx.violation(ob, "R2.priority-remap", "%s.change_customer_class" % cls.name, "random_choice(class names, row of the class-change matrix)", "class-draw",
                           "the new class must be drawn from the class names with the probabilities of the current class's row, in the same order", loc(fn))
     for view in family_views(P, "ArrivalNode"):
